@@ -41,6 +41,37 @@ pub fn neutralise(rule: &str, prop: &str, case: &J) -> Option<J> {
 			}
 			changed.then(|| sc.to_json())
 		}
+		"yaml_detection_depends_on_lookahead" => {
+			// Detection (no format named) of text that contains a character YAML forbids
+			// (C0/C1 controls other than TAB/LF/CR/NEL, U+FFFE/U+FFFF) somewhere after the
+			// part the YAML trial needs: whether libyaml's reader has already decoded (and
+			// rejected) that character when the first document ends depends on how the bytes
+			// arrive. Neutralise: replace the forbidden characters.
+			let mut sc = Scenario::from_json(case)?;
+			let mut changed = false;
+			for c in &mut sc.calls {
+				if c.from.is_some() {
+					continue;
+				}
+				let Ok(text) = std::str::from_utf8(&c.bytes) else { continue };
+				let bad = |ch: char| -> bool {
+					let u = ch as u32;
+					!(u == 0x09 || u == 0x0A || u == 0x0D || (0x20..=0x7E).contains(&u) || u == 0x85 || (0xA0..=0xD7FF).contains(&u) || (0xE000..=0xFFFD).contains(&u) || u >= 0x10000)
+				};
+				if text.chars().any(bad) {
+					c.bytes = text.chars().map(|ch| if bad(ch) { '?' } else { ch }).collect::<String>().into_bytes();
+					changed = true;
+				}
+			}
+			if !changed {
+				return None;
+			}
+			let mut j = sc.to_json();
+			if let Some(k) = case.get("kind") {
+				j["kind"] = k.clone();
+			}
+			Some(j)
+		}
 		"yaml_position_after_flip" => {
 			// C09 library runs only: reader supply with detection, YAML selected, both the
 			// detected and the explicit run fail, and their texts are equal once
